@@ -1,6 +1,7 @@
 package rules
 
 import (
+	"go/constant"
 	"go/token"
 	"go/types"
 	"sort"
@@ -40,6 +41,9 @@ func (c *Ctx) compatFuncs() []*ssa.Function {
 					k := strings.ToLower(c.M.Key(callee))
 					if strings.Contains(k, "compatib") || strings.Contains(k, "validateschema") {
 						add(callee, depth+1)
+					} else if len(core.PlainSites(callee)) > 0 && c.comparesBounds(callee) {
+						// a helper that is handed the bounds of both sides and compares them
+						add(callee, depth+1)
 					}
 				}
 			}
@@ -50,6 +54,32 @@ func (c *Ctx) compatFuncs() []*ssa.Function {
 	}
 	sort.Slice(out, func(i, j int) bool { return c.M.Key(out[i]) < c.M.Key(out[j]) })
 	return out
+}
+
+// comparesBounds: the function dereferences and orders two of its pointer parameters (a helper that tells whether two
+// ranges can overlap).
+func (c *Ctx) comparesBounds(fn *ssa.Function) bool {
+	isParamDeref := func(v ssa.Value) bool {
+		u, ok := v.(*ssa.UnOp)
+		if !ok || u.Op != token.MUL {
+			return false
+		}
+		_, isParam := u.X.(*ssa.Parameter)
+		return isParam
+	}
+	for _, b := range fn.Blocks {
+		for _, in := range b.Instrs {
+			if bin, ok := in.(*ssa.BinOp); ok {
+				switch bin.Op {
+				case token.GTR, token.LSS, token.GEQ, token.LEQ:
+					if isParamDeref(bin.X) && isParamDeref(bin.Y) {
+						return true
+					}
+				}
+			}
+		}
+	}
+	return false
 }
 
 type pathFact struct {
@@ -97,6 +127,13 @@ func (c *Ctx) boundRole(fn *ssa.Function, v ssa.Value) (who, which string) {
 		if ta, ok := x.Tuple.(*ssa.TypeAssert); ok && x.Index == 0 {
 			return c.boundRole(fn, ta)
 		}
+	case *ssa.Parameter:
+		// a bound handed to a helper: what every call site passes
+		srcs := core.ParamSources(x)
+		if len(srcs) == 1 && srcs[0] == ssa.Value(x) {
+			return "", ""
+		}
+		return c.rolesOf(srcs)
 	case *ssa.Field:
 		// a bound that travels in a struct of bounds (built by the caller, compared by a helper): what was put into the field
 		srcs, ok := core.FieldSources(x)
@@ -210,6 +247,9 @@ func (c *Ctx) ruleOverlap(rule string) {
 		}
 		// path enumeration
 		anchor := c.overlapAnchor(fn, cmps[0].bin)
+		if anchor == nil && c.comparesBounds(fn) && len(fn.Blocks) > 0 {
+			anchor = fn.Blocks[0] // a helper: the bounds are its parameters
+		}
 		if anchor == nil {
 			c.R.Bad(rule, key(rule, c.M.Key(fn), "anchor"), c.M.Pos(fn.Pos()), "cannot locate where both schemas' bounds become available", "undecided = fail")
 			continue
@@ -221,6 +261,49 @@ func (c *Ctx) ruleOverlap(rule string) {
 			c.R.Ok(rule, k, c.M.Pos(fn.Pos()), "accepting schema-mode paths", "on every acyclic accepting path each pair (other.min,self.max), (other.max,self.min) is vacuous by a nil bound or was compared with the accepting outcome")
 		} else {
 			c.R.Bad(rule, k, c.M.Pos(fn.Pos()), "an accepting path skips a range-overlap decision", viol)
+		}
+	}
+	// where the comparisons sit in a helper that answers "the ranges exclude each other", the callers must refuse on that
+	// answer: from the call, with the answer true, no accepting return may be reachable
+	for _, fn := range c.compatFuncs() {
+		ei := core.ErrorResultIndex(fn.Signature)
+		if ei < 0 {
+			continue
+		}
+		cnt := 0
+		for _, b := range fn.Blocks {
+			for _, in := range b.Instrs {
+				call, ok := in.(*ssa.Call)
+				if !ok {
+					continue
+				}
+				helper := core.StaticBody(&call.Call)
+				if helper == nil || helper.Signature.Results().Len() != 1 || core.ErrorResultIndex(helper.Signature) >= 0 || !c.comparesBounds(helper) {
+					continue
+				}
+				n++
+				cnt++
+				k := key(rule, c.M.Key(fn), sprintf("answer #%d of the range helper %s is followed: exclusive ranges are refused", cnt, helper.Name()))
+				val := func(v ssa.Value) (bool, bool) {
+					if v == ssa.Value(call) {
+						return true, true
+					}
+					return false, false
+				}
+				accepts := core.PathExists(nil, b, val, nil, func(tb, _ *ssa.BasicBlock, _ func(ssa.Value) (bool, bool)) bool {
+					if len(tb.Instrs) == 0 {
+						return false
+					}
+					r, isRet := tb.Instrs[len(tb.Instrs)-1].(*ssa.Return)
+					return isRet && core.IsNilConst(core.RetVal(r, ei))
+				})
+				if !accepts {
+					c.R.Ok(rule, k, c.M.InstrPos(call), "use of a range-overlap helper", "with the answer true no accepting return can be reached from the call")
+				} else {
+					c.R.Bad(rule, k, c.M.InstrPos(call), "the answer of the range helper is not followed",
+						"a path from the call reaches the accepting return although the helper answered that the ranges exclude each other: a producer whose range cannot overlap the consumer's is accepted")
+				}
+			}
 		}
 	}
 	if n == 0 {
@@ -282,32 +365,111 @@ func (c *Ctx) overlapPaths(fn *ssa.Function, anchor *ssa.BasicBlock) string {
 	type st struct {
 		nilOf   map[string]bool // "other.min" ...
 		decided map[string]bool // "p1" (other.min vs self.max), "p2"
+		phis    map[*ssa.Phi]ssa.Value // what the merges passed on this path stand for
 	}
 	clone := func(s st) st {
-		n := st{map[string]bool{}, map[string]bool{}}
+		n := st{map[string]bool{}, map[string]bool{}, map[*ssa.Phi]ssa.Value{}}
 		for k := range s.nilOf {
 			n.nilOf[k] = true
 		}
 		for k := range s.decided {
 			n.decided[k] = true
 		}
+		for k, v := range s.phis {
+			n.phis[k] = v
+		}
 		return n
 	}
 	count := 0
 	result := ""
+	boolHelper := ei < 0 && fn.Signature.Results().Len() == 1 && c.comparesBounds(fn)
+	// apply records what a condition that holds on the path says about the bounds
+	apply := func(ns *st, cd core.Cond) {
+		if v, neq, ok := core.NilCmp(cd.V); ok {
+			who, which := c.boundRole(fn, v)
+			if who != "" && neq != cd.True {
+				ns.nilOf[who+"."+which] = true
+			}
+		}
+		if bin, ok := cd.V.(*ssa.BinOp); ok {
+			dx, okx := bin.X.(*ssa.UnOp)
+			dy, oky := bin.Y.(*ssa.UnOp)
+			if okx && oky {
+				a1, b1 := c.boundRole(fn, dx.X)
+				a2, b2 := c.boundRole(fn, dy.X)
+				if a1 != "" && a2 != "" && a1 != a2 {
+					ow, sw := b1, b2
+					if a1 == "self" {
+						ow, sw = b2, b1
+					}
+					if !cd.True { // the separating comparison came out false: accepting outcome
+						if ow == "min" && sw == "max" {
+							ns.decided["p1"] = true
+						}
+						if ow == "max" && sw == "min" {
+							ns.decided["p2"] = true
+						}
+					}
+				}
+			}
+		}
+	}
 	onPath := map[*ssa.BasicBlock]bool{}
-	var walk func(b *ssa.BasicBlock, s st)
-	walk = func(b *ssa.BasicBlock, s st) {
+	var walkFrom func(prev, b *ssa.BasicBlock, s st)
+	walk := func(b *ssa.BasicBlock, s st) { walkFrom(nil, b, s) }
+	walkFrom = func(prev, b *ssa.BasicBlock, s st) {
 		if result != "" || count > 20000 || onPath[b] {
 			return
 		}
 		count++
 		onPath[b] = true
 		defer delete(onPath, b)
+		if prev != nil {
+			// the merges of this block take the value of the edge the path came over
+			idx := -1
+			for i, p := range b.Preds {
+				if p == prev {
+					idx = i
+				}
+			}
+			for _, in := range b.Instrs {
+				phi, isPhi := in.(*ssa.Phi)
+				if !isPhi {
+					break
+				}
+				if idx >= 0 {
+					v := phi.Edges[idx]
+					if inner, isInner := v.(*ssa.Phi); isInner {
+						if known, ok := s.phis[inner]; ok {
+							v = known
+						}
+					}
+					s.phis[phi] = v
+				}
+			}
+		}
 		last := b.Instrs[len(b.Instrs)-1]
 		switch x := last.(type) {
 		case *ssa.Return:
-			if ei >= 0 && core.IsNilConst(core.RetVal(x, ei)) {
+			accepting := ei >= 0 && core.IsNilConst(core.RetVal(x, ei))
+			if ei < 0 && boolHelper && len(x.Results) == 1 {
+				// a helper that answers "the ranges exclude each other": false is the accepting answer. The answer on this
+				// path: the constant the path brings, or the last comparison itself (false: it came out accepting)
+				v := core.RetVal(x, 0)
+				if phi, isPhi := v.(*ssa.Phi); isPhi {
+					if known, ok := s.phis[phi]; ok {
+						v = known
+					}
+				}
+				if k, isConst := v.(*ssa.Const); isConst && k.Value != nil && k.Value.Kind() == constant.Bool {
+					accepting = !constant.BoolVal(k.Value)
+				} else {
+					accepting = true
+					s = clone(s)
+					apply(&s, core.Cond{V: v, True: false})
+				}
+			}
+			if accepting {
 				for _, p := range []struct{ id, a, b string }{{"p1", "other.min", "self.max"}, {"p2", "other.max", "self.min"}} {
 					if s.decided[p.id] || s.nilOf[p.a] || s.nilOf[p.b] {
 						continue
@@ -323,44 +485,17 @@ func (c *Ctx) overlapPaths(fn *ssa.Function, anchor *ssa.BasicBlock) string {
 				truth := i == 0
 				ns := clone(s)
 				for _, cd := range expandForPath(x.Cond, truth) {
-					if v, neq, ok := core.NilCmp(cd.V); ok {
-						who, which := c.boundRole(fn, v)
-						if who != "" && neq != cd.True {
-							ns.nilOf[who+"."+which] = true
-						}
-					}
-					if bin, ok := cd.V.(*ssa.BinOp); ok {
-						dx, okx := bin.X.(*ssa.UnOp)
-						dy, oky := bin.Y.(*ssa.UnOp)
-						if okx && oky {
-							a1, b1 := c.boundRole(fn, dx.X)
-							a2, b2 := c.boundRole(fn, dy.X)
-							if a1 != "" && a2 != "" && a1 != a2 {
-								ow, sw := b1, b2
-								if a1 == "self" {
-									ow, sw = b2, b1
-								}
-								if !cd.True { // the separating comparison came out false: accepting outcome
-									if ow == "min" && sw == "max" {
-										ns.decided["p1"] = true
-									}
-									if ow == "max" && sw == "min" {
-										ns.decided["p2"] = true
-									}
-								}
-							}
-						}
-					}
+					apply(&ns, cd)
 				}
-				walk(succ, ns)
+				walkFrom(b, succ, ns)
 			}
 			return
 		}
 		for _, succ := range b.Succs {
-			walk(succ, clone(s))
+			walkFrom(b, succ, clone(s))
 		}
 	}
-	walk(anchor, st{map[string]bool{}, map[string]bool{}})
+	walk(anchor, st{map[string]bool{}, map[string]bool{}, map[*ssa.Phi]ssa.Value{}})
 	return result
 }
 
